@@ -194,16 +194,12 @@ impl Repr {
             // SAFETY: We just checked that `self` is HeapBuffer
             let heap = unsafe { self.as_heap_buffer_mut() };
 
-            // Because `fetch_sub` is already atomic, we should use `Release` ordering to avoid
-            // unexpected drop of the buffer and to ensure that the buffer is unique.
-            if heap.reference_count().fetch_sub(1, Release) == 1 {
+            // NOTE: We must not give up our reference before we are done with the buffer: after a
+            // `fetch_sub`, another owner may free or reallocate it at any time, and a failing
+            // allocation below would leave the count decremented. So we only *look* at the
+            // count (`Acquire`, same as `Arc::is_unique`), and release the reference after copying.
+            if heap.is_unique() {
                 // `heap` is unique, we can reallocate in place.
-
-                // We need to rollback the reference count.
-                // We should use `Acquire` ordering to prevent reordering of the reallocation and
-                // the reference count increment.
-                // This is a same meaning of `fence(Acquire); fech_add(1, Relaxed);`
-                heap.reference_count().fetch_add(1, Acquire);
 
                 if heap.capacity() >= needed_capacity {
                     // No need to reserve more capacity.
@@ -216,11 +212,10 @@ impl Repr {
                 // - `amortized_capacity` is greater than `len`.
                 unsafe { heap.realloc(amortized_capacity)? };
             } else {
-                // heap is shared, we need to reallocate a new buffer.
-                // We already decremented the reference count, no need to touch it again.
-                let str = heap.as_str();
-                let new_heap = HeapBuffer::with_additional(str, additional)?;
-                *self = Repr::from_heap(new_heap);
+                // heap is shared, we need to allocate a new buffer.
+                // Copy while we still own a reference, then release it.
+                let new_heap = HeapBuffer::with_additional(heap.as_str(), additional)?;
+                self.replace_inner(Repr::from_heap(new_heap));
             }
             Ok(())
         } else if self.is_static_buffer() {
@@ -490,25 +485,17 @@ impl Repr {
                 // to just set the new length.
                 // SAFETY: `new_len <= len <= capacity`
                 unsafe { heap.set_len(new_len) };
+            } else if heap.is_unique() {
+                // See `reserve` method for why the count is only inspected here.
+                // SAFETY: `heap` is unique, we can set the new length in place.
+                unsafe { heap.set_len(new_len) };
             } else {
-                // See `reverse` method for the explanation of the ordering.
-                if heap.reference_count().fetch_sub(1, Release) == 1 {
-                    // `heap` is unique, we can set the new length in place.
-
-                    // See `reverse` method for the explanation of the ordering.
-                    heap.reference_count().fetch_add(1, Acquire);
-
-                    // SAFETY: `heap` is unique, we can reallocate in place.
-                    unsafe { heap.set_len(new_len) };
-                } else {
-                    // SAFETY: `ptr` is valid for `len` bytes, and `HeapBuffer` contains valid UTF-8.
-                    let str = unsafe {
-                        let ptr = self.0 as *mut u8;
-                        let slice = slice::from_raw_parts_mut(ptr, new_len);
-                        str::from_utf8_unchecked_mut(slice)
-                    };
-                    *self = Repr::from_str(str)?;
-                }
+                // The length is stored in the shared allocation, we need our own buffer.
+                // Copy while we still own a reference, then release it.
+                // SAFETY: `new_len <= len` and `new_len` is a valid char boundary.
+                let str = unsafe { heap.as_str().get_unchecked(..new_len) };
+                let new_repr = Repr::from_str(str)?;
+                self.replace_inner(new_repr);
             }
         } else if self.is_static_buffer() {
             // SAFETY:
@@ -620,17 +607,12 @@ impl Repr {
             // SAFETY: we just checked self is HeapBuffer
             let heap = unsafe { self.as_heap_buffer_mut() };
 
-            // See `reverse` method for the explanation of the ordering.
-            if heap.reference_count().fetch_sub(1, Release) == 1 {
-                // `heap` is unique, we can modify it in place.
-
-                // See `reverse` method for the explanation of the ordering.
-                heap.reference_count().fetch_add(1, Acquire);
-            } else {
-                // SAFETY: `heap` is shared, we need to create a new buffer.
-                let str = heap.as_str();
-                let new_heap = HeapBuffer::new(str)?;
-                *self = Repr::from_heap(new_heap);
+            // See `reserve` method for why the count is only inspected here.
+            if !heap.is_unique() {
+                // `heap` is shared, we need to create a new buffer.
+                // Copy while we still own a reference, then release it.
+                let new_heap = HeapBuffer::new(heap.as_str())?;
+                self.replace_inner(Repr::from_heap(new_heap));
             }
         } else if self.is_static_buffer() {
             // StaticBuffer is immutable, need to convert to other buffer.
